@@ -126,3 +126,14 @@ def _(files: FILES, restricted: OneOf(None, "/restricted"), addons: OneOf(None, 
     let(h=fingerprint_or_none(files, restricted, addons))
     ensures(h is None or h == HASH("sha1", fingerprint_input(files, "/data", restricted, addons)), label="digest-over-name-mtime-size-of-every-file-then-the-paths")
     cover(h is not None)
+
+
+# ---- the writer: whatever the file system and a racing process do, storing the cache never disturbs the caller, and the file is only touched under its lock ----
+@contract("spsdk.utils.database:Database.DatabaseData.make_cache", replay=False)
+def _(self: Obj(Database.DatabaseData, path=Const("/data"), restricted_data_path=Const(None), addons_data_path=Const(None), db_hash=Bytes(lo=0, hi=20),
+                cfg_cache=Const({}), defaults=Const("<live defaults>"))):
+    # (a) totality: no raises clause - every exception of open / pickle / os / FileLock stays inside.  (c) lock discipline: the FS model emits a
+    # `lock-held@open(...)` obligation at every open of the cache file.  The recorded hash is the live one or empty (never a value that could
+    # make a later reader trust a file that was not written completely by this call).
+    ensures(self.db_hash == b"" or self.db_hash == ghost_const("live_cfg_hash", Bytes(20)) or self.db_hash == old(self.db_hash), label="recorded-hash-is-empty-live-or-unchanged")
+    modifies(self.db_hash, self.cfg_cache)
